@@ -1,16 +1,19 @@
 ------------------------------- MODULE MC_C19 -------------------------------
 (* C19: every datagram sequence a hostile environment can send, every placement of the timeouts *)
 EXTENDS Election
-CONSTANTS MaxSend, Prios_
+CONSTANTS MaxSend, Prios_,
+  Rewrites_      \* versions of the peer set the config file may be rewritten to (each rewrite counts as a send)
 VARIABLE nsent
 Msgs == {VoteReq(id, p) : id \in Ids \ {Me}, p \in Prios_} \cup {VoteResp(id) : id \in Ids \ {Me}}
         \cup {HbReq(id) : id \in Ids} \cup {HbResp(id) : id \in Peers_}
 MCInit == EInit /\ nsent = 0
 MCNext ==
   \/ \E m \in Msgs : nsent < MaxSend /\ EnvSend(m) /\ nsent' = nsent + 1
-  \/ (Recv \/ Timeout \/ LeaderBeat \/ (\E p \in Peers_ : TakeNet(p)) \/ TakeProc) /\ UNCHANGED nsent
+  \/ \E P \in Rewrites_ : nsent < MaxSend /\ EnvRewrite(P) /\ nsent' = nsent + 1
+  \/ (Recv \/ Timeout \/ LeaderBeat \/ Scan \/ Reload \/ (\E p \in AllPeers : TakeNet(p)) \/ TakeProc) /\ UNCHANGED nsent
 MCSpec == MCInit /\ [][MCNext]_<<evars, nsent>>
-MCBound == /\ \A p \in Peers_ : Len(net[p]) <= 2
+MCBound == /\ \A p \in AllPeers : Len(net[p]) <= 2
            /\ Len(proc) <= 3
+PendInv == Len(pend) <= 1 /\ cpeers \subseteq AllPeers
 MCAction == [][LeaderStep /\ FollowerStep]_<<evars, nsent>>
 =============================================================================
